@@ -230,7 +230,8 @@ open EphVerif.StoreSpec (Op) in
     at steady time `t` (wall `t + off`) under a manifest expiring at wall time `E`.  Then
     * the TTL `ttl` C11's model records with the replica, the key-share record and the announcement is the one C03 derives
       (`manifest_ttl`, the same function), `1 ≤ ttl`;
-    * every record C03 lists for the receive path — key shares, self-announcement, the replica itself — ends, as wall time,
+    * whatever key-share record the table held before (`prev`, any deadline or none: the receive path replaces it), every
+      record C03 lists for the receive path — key shares, self-announcement, the replica itself — ends, as wall time,
       no later than `E` and no later than `max_manifest_ttl` after arrival (C03.derived);
     * in C01's store, for any earlier history `pre` and any later history `post` that does not store the id again, the
       replica's entry is the put at `t` with deadline `t + ttl·10⁹ ≤ E − off`, and once that deadline is reached no lookup,
@@ -241,7 +242,7 @@ theorem replica_lifetime (cfg0 : Gen.C02.Cfg) (shardT shardN : Nat) (off : Int) 
             = (acceptEffects stB m ttl ct, .accepted pt)) :
     Gen.C02.manifest_ttl m.expiresNs (Ttl.effective cfg0) (t + off) = some ttl ∧ 1 ≤ ttl ∧
     (exportRecord (acceptEffects stB m ttl ct) m.chunkId).map (·.ttl) = some ttl ∧
-    (∃ ws, MTtl.writes (Ttl.effective cfg0) off t m.expiresNs (.receive true) = some ws ∧
+    (∀ prev : Int, ∃ ws, MTtl.writes (Ttl.effective cfg0) off t m.expiresNs prev (.receive true) = some ws ∧
       ∀ x ∈ ws, C03Spec.NotAfterManifest m.expiresNs (x.wall off) ∧
         C03Spec.Capped (t + off) (Ttl.effective cfg0).max_manifest_ttl (x.wall off)) ∧
     t + off + ttl * 1000000000 ≤ m.expiresNs ∧
@@ -274,21 +275,22 @@ theorem replica_lifetime (cfg0 : Gen.C02.Cfg) (shardT shardN : Nat) (off : Int) 
   have hgen : Gen.C02.manifest_ttl m.expiresNs (Ttl.effective cfg0) (t + off) = some ttl' := by
     rw [← manifestTtl_eq_generated]; exact httl
   -- C03: the writes of the receive path
-  have hw : MTtl.writes (Ttl.effective cfg0) off t m.expiresNs (.receive true)
-      = some [⟨.shard, Gen.C02.publish_shards_expires (Gen.C02.receive_shard_ttl ttl' (Ttl.effective cfg0)) t⟩,
+  have hw : ∀ prev : Int, MTtl.writes (Ttl.effective cfg0) off t m.expiresNs prev (.receive true)
+      = some [⟨.shard, Gen.C02.publish_shards_expires (Gen.C02.receive_shard_ttl ttl' (Ttl.effective cfg0)) t prev⟩,
               ⟨.contact "self", Gen.C02.add_contact_expires
                   (Gen.C02.announce_chunk_contact_ttl (Gen.C02.receive_announce_ttl ttl' (Ttl.effective cfg0))) t⟩,
               ⟨.chunk, Ttl.chunkStorePut (Ttl.effective cfg0) (Gen.C02.receive_put_ttl ttl' (Ttl.effective cfg0)) t⟩] := by
+    intro prev
     simp only [MTtl.writes, Gen.C02.receive_ttl_source, hgen, if_true]
-  have hder := C03.derived cfg0 off t m.expiresNs (.receive true) _ hw
+  have hder := fun prev : Int => C03.derived cfg0 off t m.expiresNs prev (.receive true) _ (hw prev)
   -- 1 ≤ ttl and the replica's own deadline, from the shard write (same TTL, `steady + ttl·10⁹`)
   have hpos : 1 ≤ ttl' := manifestTtl_pos httl
-  have hshard := (hder ⟨.shard, Gen.C02.publish_shards_expires (Gen.C02.receive_shard_ttl ttl' (Ttl.effective cfg0)) t⟩
+  have hshard := (hder 0 ⟨.shard, Gen.C02.publish_shards_expires (Gen.C02.receive_shard_ttl ttl' (Ttl.effective cfg0)) t 0⟩
     (List.mem_cons_self)).1
   have hbound : t + off + ttl' * 1000000000 ≤ m.expiresNs := by
     simp only [C03Spec.NotAfterManifest, MTtl.Write.wall, Gen.C02.publish_shards_expires, Gen.C02.receive_shard_ttl] at hshard
     omega
-  refine ⟨hgen, hpos, by rw [hrec2]; rfl, ⟨_, hw, hder⟩, hbound, ?_⟩
+  refine ⟨hgen, hpos, by rw [hrec2]; rfl, fun prev => ⟨_, hw prev, hder prev⟩, hbound, ?_⟩
   intro nc hs t0 fs pre post c ctS nonceS hnow hpost ops hdead w
   obtain ⟨e, hlast, hdl⟩ := last_after_put (ChunkStore.paramsOf nc) t0 pre post c ctS nonceS ttl' hpos hpost
   have := C01.dead_unreachable nc hs t0 fs ops c e hlast (by rw [hdl, hnow]; exact hdead)
@@ -317,7 +319,7 @@ example : System.Faithful ⟨4, 3, .chunk (List.replicate 32 7) [1, 2, 3, 4, 5] 
     clock advanced past the deadline — and C03's writes for that manifest are the three records with deadline `t + 3600 s` -/
 example :
     MTtl.writes (Ttl.effective { default_chunk_ttl := 21600, min_manifest_ttl := 30, max_manifest_ttl := 21600 }) 0 1000
-        (1000 + 3600 * 1000000000) (.receive true)
+        (1000 + 3600 * 1000000000) 0 (.receive true)
       = some [⟨.shard, 1000 + 3600 * 1000000000⟩, ⟨.contact "self", 1000 + 3600 * 1000000000⟩, ⟨.chunk, 1000 + 3600 * 1000000000⟩] := by
   decide
 
